@@ -304,6 +304,13 @@ func c06Case(c *Ctx) error {
 		record("tok", fmt.Sprintf("UTok (OSetFeeAddr %d %d)", w.FeeSet.N(), fa.N()), msg, "None")
 	}
 	for k := 25 + rng.Intn(21); k > 0; k-- {
+		if meta := w.TokenMeta("tt"); rng.Intn(4) == 0 && len(meta.GetRates()) == 0 && meta.GetFee() == nil && len(meta.GetFeeAddress()) == 0 && len(meta.GetTotalEmission()) > 0 {
+			// a rate for a currency nobody uses is set and removed again while the token has no other rate, no fee and no fee
+			// address: the recorded emission (kept in the same metadata record) is what it was. No step of the model.
+			m1 := tokRun(w.Issuer, "setRate", "buyToken", "XX9", "5")
+			m2 := tokRun(w.Issuer, "deleteRate", "buyToken", "XX9")
+			c.Count("rate_set_and_deleted_on_a_bare_token: " + errClass(m1) + " / " + errClass(m2))
+		}
 		switch r := rng.Intn(100); {
 		case r < 6: // emit
 			s := w.Issuer
